@@ -1,13 +1,13 @@
 # C15 -- see DESIGN.md section 5
 PROP = {
     "props_v": "Props/C15.v",
-    "extra_v": ["CodecRun.v"],
+    "extra_v": ["CodecRun.v", "ServerRun.v"],
     "gen_bins": ["test"],
     "gen_obligations": [
         "c15_gen_report_serialize@Layouts", "c15_gen_report_deserialize@Layouts", "c15_gen_report_signing@Layouts",
         "c15_gen_auth_serialize@Layouts", "c15_gen_auth_deserialize@Layouts", "c15_gen_reg_signing@Layouts",
     ],
-    "suites": [("test", "codec")],
+    "suites": [("test", "codec"), ("test", "tornfiles")],
     "run_vo": "CodecRun.vo",
     "assumptions": [
         "authorized-server / migration theorems assume locations of at most 255 bytes (the length byte is the length modulo 256); beyond that the round trip and the injectivity of migration signing bytes are refuted (c15_aserver_roundtrip_beyond_255_refuted, c15_migration_signing_beyond_255_refuted)",
